@@ -243,8 +243,8 @@ def run(tier: str, seed: int) -> int:
     if n_obl == 0:
         R.engine_errors.append("no obligations generated")
     # bounded stand-in
-    n = 8 if tier == "quick" else 10
-    p = run_venv("layout_tierb.py", [str(n)], timeout=7200)
+    n, nfull = (8, 15) if tier == "quick" else (10, 19)
+    p = run_venv("layout_tierb.py", [str(n), str(nfull)], timeout=7200)
     bounded = {}
     if p.returncode != 0:
         R.engine_errors.append("tier-B failed: " + p.stderr[-300:])
@@ -264,7 +264,7 @@ def run(tier: str, seed: int) -> int:
                         R.violation(f"bounded check on real code: layout of shape {shape} violates '{c}' (not among the listed known failures)", {"shape": shape, "clause": c}, True)
         if known_hit:
             R.known({"id": "KF-C18-contour-clauses", "what": known.get("what", "")})
-        bounded = {"max_nodes": d["max_nodes"], "shapes": d["shapes"], "unit_multipliers": d["unit_multipliers"], "failing_pairs_known": known_hit, "failing_pairs_new": new, "exhaustive": True}
+        bounded = {"max_nodes": d["max_nodes"], "max_nodes_full_binary_trees": d.get("max_nodes_full_trees"), "shapes": d["shapes"], "unit_multipliers": d["unit_multipliers"], "failing_pairs_known": known_hit, "failing_pairs_new": new, "exhaustive": True}
     R.level = "other"
     R.coverage = {
         "explanation": "transform/measure-y/bounds: deductive (structural induction); strictness, separation, mirror symmetry, repeatability: bounded over all shapes up to the stated size",
